@@ -44,7 +44,24 @@ impl Concurrent<VirtualSystem> {
         F: Future<Output = ()>,
     {
         let mut task = pin!(task);
-        while poll!(&mut task).is_pending() {
+        loop {
+            // A process that has been stopped or terminated by a signal must
+            // not make any progress, so we need to check the process state
+            // *before* polling the task. The signal may have been delivered
+            // while this future was not being polled, e.g., before the task
+            // was polled for the first time or after it was woken up.
+            let state = self.inner.current_process().state();
+            if let ProcessState::Halted(result) = state {
+                if result.is_stopped() && !self.inner.block_while_stopped().await {
+                    continue;
+                }
+                return;
+            }
+
+            if poll!(&mut task).is_ready() {
+                return;
+            }
+
             let state = self.inner.current_process().state();
             match state {
                 ProcessState::Running => {
